@@ -1280,6 +1280,7 @@ namespace
             runtime.__logmsg(err::IndexOutOfRange(runtime.context_active().current_frame().diag_info_from_position(), d_array::max_size, static_cast<size_t>(index)));
             return {};
         }
+        auto oldsize = arr->size();
         if (static_cast<int>(arr->size()) <= index)
         {
             arr->resize(index + 1);
@@ -1288,7 +1289,12 @@ namespace
         (*arr)[index] = val;
         if (!arr->recursion_test())
         {
+            // refused: the array stays as it was, including its size
             (*arr)[index] = oldval;
+            if (arr->size() != oldsize)
+            {
+                arr->resize(oldsize);
+            }
             runtime.__logmsg(err::ArrayRecursion(runtime.context_active().current_frame().diag_info_from_position()));
             return {};
         }
